@@ -129,6 +129,9 @@ func (c *Checker) Step(a Action, r Result) error {
 		c.sent += len(f.Payload)
 		c.Frames++
 	}
+	if r.Runaway {
+		return fmt.Errorf("readfrom did not stop on a source that returns (0, nil) for ever: still reading after %d consecutive empty reads (it documents giving up after 100 with io.ErrNoProgress)", runawayReads)
+	}
 	srcEnd := a.Kind == KReadFrom && ((a.SrcErr && r.Err == "source") || (a.Stall && r.Err == "noprogress"))
 	if r.Err != "" && !(a.Kind == KThrough && r.Err == "notempty") && !srcEnd {
 		return fmt.Errorf("%s returned error %q although the destination never fails", a.Kind, r.Err)
